@@ -3,6 +3,7 @@ package main
 // Racing three SMT solvers on one query. First definite answer wins.
 
 import (
+	"runtime"
 	"bytes"
 	"context"
 	"os"
@@ -22,6 +23,8 @@ type SolveResult struct {
 	Raw     string
 	Answers map[string]string // per solver, as far as known
 }
+
+var procSlots = make(chan struct{}, max(4, runtime.NumCPU()))
 
 type solverSpec struct {
 	name  string
@@ -101,6 +104,13 @@ func Solve(dir, name, smt string, secs int, all bool) SolveResult {
 				case <-time.After(time.Duration(sp.delay) * time.Second):
 				}
 			}
+			// one solver process per core at a time: timings then do not depend on how many obligations are in flight
+			select {
+			case procSlots <- struct{}{}:
+			case <-ctx.Done():
+				return
+			}
+			defer func() { <-procSlots }()
 			t0 := time.Now()
 			sf := file
 			if sp.tactic != "" {
